@@ -5,6 +5,7 @@ import json
 
 import numpy as np
 
+import os
 import common
 
 LEVEL = "proof"
@@ -175,6 +176,10 @@ def cases(ctx):
     for name in ("empty",):
         for ft in ("stl", "ply", "off", "obj", "glb", "dict"):
             yield {"kind": "mesh", "geom": name, "fmt": ft, "opts": {}}
+    # attached per-vertex / per-face data of every numeric type the PLY writer has a name for
+    for code in ("i1", "u1", "i2", "u2", "i4", "i8", "u4", "u8", "f4", "f8"):
+        for enc in ("binary", "ascii"):
+            yield {"kind": "ply_attr", "code": code, "encoding": enc, "fmt": "ply"}
     # model-side byte comparisons
     for name in ("single", "tet", "extreme", "thirds", "ico", "soup"):
         yield {"kind": "stl_bytes", "geom": name}
@@ -250,6 +255,35 @@ def run_case(c):
     import trimesh
     k = c["kind"]
     o = {}
+    if k == "ply_attr":
+        m = trimesh.Trimesh([[0, 0, 0], [1, 0, 0], [0, 1, 0], [0, 0, 1]], [[0, 2, 1], [0, 1, 3], [1, 2, 3], [0, 3, 2]],
+                            process=False)
+        dt = np.dtype(c["code"])
+        hi = np.iinfo(dt).max if dt.kind in "iu" else 3
+        va = np.array([1, 2, 3, hi], dtype=dt) if dt.kind in "iu" else np.array([0.5, -1.25, 3.0, 1e3], dtype=dt)
+        fa = np.array([hi, 0, 7, 1], dtype=dt) if dt.kind in "iu" else np.array([2.5, 0.0, -7.0, 0.125], dtype=dt)
+        m.vertex_attributes["va"] = va
+        m.face_attributes["fa"] = fa
+        data = m.export(file_type="ply", encoding=c["encoding"], include_attributes=True)
+        r = _load(data, "ply")
+        if isinstance(r, trimesh.Scene):
+            r = r.dump(concatenate=True)
+        o["vertices_same"] = bool(np.array_equal(r.vertices, m.vertices))
+        o["faces_same"] = bool(np.array_equal(r.faces, m.faces))
+        # the loader hands the extra columns back under metadata['_ply_raw'] (or as attributes)
+        raw = (r.metadata or {}).get("_ply_raw", {})
+
+        def col(elem, name, attrs):
+            if name in attrs:
+                return attrs[name]
+            try:
+                return np.asarray(raw[elem]["data"][name])
+            except Exception:
+                return None
+        got_v, got_f = col("vertex", "va", r.vertex_attributes), col("face", "fa", r.face_attributes)
+        o["va"] = None if got_v is None else bool(np.ravel(got_v).tolist() == va.tolist())
+        o["fa"] = None if got_f is None else bool(np.ravel(got_f).tolist() == fa.tolist())
+        return o
     if k == "mesh":
         m = _mesh_of(c)
         ft, kw = _fmt(c)
@@ -407,6 +441,13 @@ def oracle(c, o):
             d["geom"] = c["geom"]
         d.update(kw)
         return d
+    if k == "ply_attr":
+        if not (o["vertices_same"] and o["faces_same"]):
+            return bad("geometry-changed-with-attached-data", code=c["code"], encoding=c["encoding"])
+        # attached data the format carries must come back with the same values
+        if not (o["va"] and o["fa"]):
+            return bad("attached-data-changed-or-lost", code=c["code"], encoding=c["encoding"])
+        return None
     if k == "mesh":
         m = _mesh_of(c)
         ft, kw = _fmt(c)
@@ -548,3 +589,75 @@ def compare(c, o, m):
 
 def nontrivial(c, o):
     return "err" not in o and (o.get("n", 1) > 0)
+
+
+# ------------------------------------------------------------------ (G) layout tables regenerated from the source
+
+def _module_literal(path, name):
+    """value of a module-level `name = <literal>` assignment (ast, nothing is executed)"""
+    import ast
+    tree = ast.parse(open(os.path.join(common.REPO, path)).read())
+    for node in tree.body:
+        if isinstance(node, ast.Assign) and any(isinstance(t, ast.Name) and t.id == name for t in node.targets):
+            return node.value
+    raise common.Broken("translate", f"{path}: no module-level assignment of {name}")
+
+
+def _np_dtype_fields(node, path, name):
+    """fields of `np.dtype([...])`: (field, type code, element count)"""
+    import ast
+    if not (isinstance(node, ast.Call) and ast.unparse(node.func) == "np.dtype" and node.args):
+        raise common.Broken("translate", f"{path}: {name} is no longer np.dtype([...])")
+    out = []
+    for el in node.args[0].elts:
+        parts = list(el.elts)
+        fname = ast.literal_eval(parts[0])
+        typ = ast.unparse(parts[1])
+        typ = {"np.void": "V"}.get(typ, typ.strip("'\""))
+        shape = ast.literal_eval(parts[2]) if len(parts) > 2 else 1
+        count = 1
+        for d_ in (shape if isinstance(shape, tuple) else (shape,)):
+            count *= int(d_)
+        out.append((fname, typ, count))
+    return out
+
+
+def translate(ctx):
+    import ast
+    ply_d = ast.literal_eval(_module_literal("trimesh/exchange/ply.py", "_dtypes"))
+    ply_i = ast.literal_eval(_module_literal("trimesh/exchange/ply.py", "_inverse_dtypes"))
+    magic = ast.literal_eval(_module_literal("trimesh/exchange/gltf.py", "_magic"))
+    gl_d = ast.literal_eval(_module_literal("trimesh/exchange/gltf.py", "_dtypes"))
+    gl_s = ast.literal_eval(_module_literal("trimesh/exchange/gltf.py", "_shapes"))
+    stl = _np_dtype_fields(_module_literal("trimesh/exchange/stl.py", "_stl_dtype"), "stl.py", "_stl_dtype")
+    stlh = _np_dtype_fields(_module_literal("trimesh/exchange/stl.py", "_stl_dtype_header"), "stl.py", "_stl_dtype_header")
+
+    def prod(x):
+        r = 1
+        for d_ in (x if isinstance(x, tuple) else (x,)):
+            r *= int(d_)
+        return r
+
+    def pairs(d):
+        return "[" + ", ".join(f'("{k}", "{v}")' for k, v in d.items()) + "]"
+    L = ["-- GENERATED by harness/props/C08.py from /repo/trimesh/exchange/{stl,ply,gltf}.py (ast, literal tables) -- do not edit",
+         "namespace TV.Generated.C08", "",
+         "/-- `ply._dtypes`: PLY type name -> numpy type code (the loader's table) -/",
+         f"def plyDtypes : List (String × String) := {pairs(ply_d)}",
+         "/-- `ply._inverse_dtypes`: numpy type code -> PLY type name (the exporter's table) -/",
+         f"def plyInverse : List (String × String) := {pairs(ply_i)}",
+         "/-- `gltf._magic` -/",
+         f"def gltfMagic : List (String × Nat) := [" + ", ".join(f'("{k}", {v})' for k, v in magic.items()) + "]",
+         "/-- `gltf._dtypes`: componentType -> little-endian numpy type code -/",
+         f"def gltfDtypes : List (Nat × String) := [" + ", ".join(f'({k}, "{v}")' for k, v in gl_d.items()) + "]",
+         "/-- `gltf._shapes`: accessor type -> number of components -/",
+         f"def gltfShapes : List (String × Nat) := [" + ", ".join(f'("{k}", {prod(v)})' for k, v in gl_s.items()) + "]",
+         "/-- `stl._stl_dtype`: (field, type code, element count) in record order -/",
+         f"def stlRecord : List (String × String × Nat) := [" + ", ".join(f'("{a}", "{b}", {c})' for a, b, c in stl) + "]",
+         f"def stlHeader : List (String × String × Nat) := [" + ", ".join(f'("{a}", "{b}", {c})' for a, b, c in stlh) + "]",
+         "", "end TV.Generated.C08"]
+    return {"C08Tables.lean": "\n".join(L) + "\n"}
+
+
+def generated_obligations():
+    return 5
